@@ -8,6 +8,7 @@ for d in seeded/*/; do
   name=$(basename $d)
   [ -f $d/patch.diff ] || continue
   prop=${name%%-*}
+  if grep -q '"status": "obsolete' $d/meta.json 2>/dev/null; then echo "$name $prop OBSOLETE (neutralised by a later library repair; see meta.json)" >> $OUT.tmp; continue; fi
   if [ -n "$(git -C /repo status --short)" ]; then echo "/repo not clean"; exit 3; fi
   if ! git -C /repo apply /verif/$d/patch.diff 2>/dev/null; then echo "$name $prop PATCH-DOES-NOT-APPLY" >> $OUT.tmp; continue; fi
   VERIF_MAX_REPORT=1 VERIF_MINIMISE_SECS=3 ./check $prop quick > /tmp/regress_out.txt 2>&1; rc=$?
